@@ -4,6 +4,7 @@ package lab
 
 import (
 	"bytes"
+	"sync"
 	"encoding/json"
 	"errors"
 	"fmt"
@@ -226,52 +227,66 @@ type Run struct {
 	MaxExec  int64
 }
 
-// Explore runs the given explorations over a worker pool and folds the results into rep.
+// Explore runs the given explorations over a worker pool (concurrently) and folds the results into rep.
 func Explore(testName string, rep *core.Report, runs []Run) {
 	pool := core.NewPool(testName, core.Parallelism(), 120*time.Second)
 	defer pool.Close()
+	var mu sync.Mutex
 	states := map[uint64]struct{}{}
 	outcomes := map[string]int64{}
+	sem := make(chan struct{}, 4*core.Parallelism())
+	var wg sync.WaitGroup
 	for _, r := range runs {
-		argb, _ := json.Marshal(r.Arg)
-		ex := &core.ParallelExplorer{Pool: pool, Scenario: r.Scenario, Arg: argb, Budget: r.Budget, MaxExec: r.MaxExec}
-		ex.Visit = func(job core.ExecJob, res *core.ExecResult, crash string, hang bool) {
-			if crash != "" {
-				rep.Violate("crash.process."+crashKeyFromStderr(crash), fmt.Sprintf("worker process died while executing scenario %s arg %s prefix %v:\n%s", r.Scenario, argb, job.Prefix, crash),
-					map[string]any{"scenario": r.Scenario, "arg": r.Arg, "choices": job.Prefix})
-				return
+		r := r
+		sem <- struct{}{}
+		wg.Add(1)
+		go func() {
+			defer func() { <-sem; wg.Done() }()
+			argb, _ := json.Marshal(r.Arg)
+			ex := &core.ParallelExplorer{Pool: pool, Scenario: r.Scenario, Arg: argb, Budget: r.Budget, MaxExec: r.MaxExec}
+			ex.Visit = func(job core.ExecJob, res *core.ExecResult, crash string, hang bool) {
+				if crash != "" {
+					rep.Violate("crash.process."+crashKeyFromStderr(crash), fmt.Sprintf("worker process died while executing scenario %s arg %s prefix %v:\n%s", r.Scenario, argb, job.Prefix, crash),
+						map[string]any{"scenario": r.Scenario, "arg": r.Arg, "choices": job.Prefix})
+					return
+				}
+				if hang {
+					rep.Cap(fmt.Sprintf("worker exceeded its wall budget on scenario %s prefix %v (not a verdict)", r.Scenario, job.Prefix))
+					return
+				}
+				for _, v := range res.Violations {
+					rep.Violate(v.Key, v.Desc, v.Replay)
+				}
+				for k, n := range res.Counters {
+					rep.Add(k, n)
+				}
+				mu.Lock()
+				if res.Outcome != "" {
+					outcomes[res.Outcome]++
+				}
+				mu.Unlock()
+				if len(job.Prefix) == 0 {
+					rep.Sample(12, map[string]any{"scenario": r.Scenario, "arg": r.Arg, "default_schedule_steps": len(res.Trace.Choices), "outcome": res.Outcome})
+				}
 			}
-			if hang {
-				rep.Cap(fmt.Sprintf("worker exceeded its wall budget on scenario %s prefix %v (not a verdict)", r.Scenario, job.Prefix))
-				return
+			ex.Run()
+			if ex.Capped {
+				rep.Cap(fmt.Sprintf("execution cap %d reached in scenario %s arg %s", r.MaxExec, r.Scenario, argb))
 			}
-			for _, v := range res.Violations {
-				rep.Violate(v.Key, v.Desc, v.Replay)
+			mu.Lock()
+			rep.Evaluations += ex.Stats.Executions
+			rep.Transitions += ex.Stats.Transitions
+			rep.TracesImpl += ex.Stats.Executions
+			for s := range ex.States {
+				states[s] = struct{}{}
 			}
-			for k, n := range res.Counters {
-				rep.Add(k, n)
+			if d, _ := rep.Extra["max_depth"].(int64); int64(ex.Stats.MaxDepth) > d {
+				rep.Extra["max_depth"] = int64(ex.Stats.MaxDepth)
 			}
-			if res.Outcome != "" {
-				outcomes[res.Outcome]++
-			}
-			if len(job.Prefix) == 0 {
-				rep.Sample(12, map[string]any{"scenario": r.Scenario, "arg": r.Arg, "default_schedule_steps": len(res.Trace.Choices), "outcome": res.Outcome})
-			}
-		}
-		ex.Run()
-		if ex.Capped {
-			rep.Cap(fmt.Sprintf("execution cap %d reached in scenario %s", r.MaxExec, r.Scenario))
-		}
-		rep.Evaluations += ex.Stats.Executions
-		rep.Transitions += ex.Stats.Transitions
-		rep.TracesImpl += ex.Stats.Executions
-		for s := range ex.States {
-			states[s] = struct{}{}
-		}
-		if d, _ := rep.Extra["max_depth"].(int64); int64(ex.Stats.MaxDepth) > d {
-			rep.Extra["max_depth"] = int64(ex.Stats.MaxDepth)
-		}
+			mu.Unlock()
+		}()
 	}
+	wg.Wait()
 	rep.States = int64(len(states))
 	rep.Distinct = int64(len(states))
 	oc := map[string]any{}
